@@ -111,3 +111,44 @@ fn c17_no_frames_no_fingerprint() {
     let frames: Vec<Http2Frame> = Vec::new();
     assert!(extract_akamai_fingerprint(&frames).is_none());
 }
+
+// ---- order of pseudo-headers in the first request HEADERS block (HPACK decoding replaced by a steerable list)
+fn steer_headers(_payload: &[u8]) -> Result<Vec<HttpHeader>, hpack_patched::decoder::DecoderError> {
+    let mut v = Vec::new();
+    let mut i = 0;
+    while i < NPS {
+        let k: u8 = kani::any();
+        kani::assume(k < 5);
+        let name = match k { 0 => ":method", 1 => ":path", 2 => ":authority", 3 => ":scheme", _ => "accept" };
+        let source = if k < 4 { crate::http_common::HeaderSource::Http2PseudoHeader } else { crate::http_common::HeaderSource::Http2Header };
+        v.push(HttpHeader { name: String::from(name), value: None, position: i, source });
+        PICK[i].store(k as usize, std::sync::atomic::Ordering::SeqCst);
+        i += 1;
+    }
+    Ok(v)
+}
+const NPS: usize = 2;
+static PICK: [std::sync::atomic::AtomicUsize; NPS] = [std::sync::atomic::AtomicUsize::new(0), std::sync::atomic::AtomicUsize::new(0)];
+fn ps_code(p: &PseudoHeader) -> u8 {
+    match p { PseudoHeader::Method => 0, PseudoHeader::Path => 1, PseudoHeader::Authority => 2, PseudoHeader::Scheme => 3, _ => 9 }
+}
+#[kani::proof]
+#[kani::unwind(12)]
+#[kani::stub(decode_headers, steer_headers)]
+fn c17_pseudo_header_order() {
+    // PS = every pseudo-header of the first request HEADERS block, in block order, wherever regular fields stand
+    let f = Http2Frame { frame_type: Http2FrameType::Headers, stream_id: 1, flags: 4, payload: Vec::new(), length: 0 };
+    let frames = vec![f];
+    let ps = extract_pseudo_header_order(&frames);
+    let mut n = 0;
+    let mut i = 0;
+    while i < NPS {
+        let k = PICK[i].load(std::sync::atomic::Ordering::SeqCst) as u8;
+        if k < 4 {
+            assert!(n < ps.len() && ps_code(&ps[n]) == k);
+            n += 1;
+        }
+        i += 1;
+    }
+    assert!(ps.len() == n);
+}
